@@ -1915,6 +1915,10 @@ func (in *Interp) chanSend(ch ChanV, v Value, blocking bool) bool {
 			if in.onBlockedSend != nil && in.onBlockedSend(ch.Ch, v) {
 				return true
 			}
+			if ch.Ch.Consumed && len(ch.Ch.Q) > 0 {
+				ch.Ch.Q = append(append([]Value{}, ch.Ch.Q[1:]...), v)
+				return true
+			}
 			in.goPanicf("DEADLOCK: send on full channel (cap %d) blocks with no concurrent receiver", ch.Ch.Cap)
 		}
 		return false
